@@ -258,9 +258,10 @@ class Check:
             res = json.load(f)
         if res["consumed"] != res["total"]:
             raise Infra("trace validation %s consumed %d of %d events" % (tag, res["consumed"], res["total"]))
-        self.cov["states"] += r.distinct
-        self.cov["transitions"] += r.generated
-        self.cov["model_runs"].append({"run": "trace:" + tag, "events": res["total"], "wall_s": round(r.wall, 1)})
+        with self.lock:
+            self.cov["states"] += r.distinct
+            self.cov["transitions"] += r.generated
+            self.cov["model_runs"].append({"run": "trace:" + tag, "events": res["total"], "wall_s": round(r.wall, 1)})
         return res["bad"], res
 
     def parallel(self, thunks, max_workers=4):
